@@ -53,6 +53,30 @@ impl VIndexedPriorityQueue {
     pub fn extract(&mut self, slab_idx: usize, epoch: u64) -> Option<(u64, u64)> {
         self.0.extract(InsertKey::from_raw_parts(slab_idx, epoch))
     }
+    /// The heap array, the slab, the head of the free list and the next epoch.
+    pub fn raw(&self) -> String {
+        let (heap, slab, free, epoch) = self.0.verif_raw();
+        let heap: Vec<String> = heap
+            .iter()
+            .map(|(k, e, s)| format!("{k}:{e}:{s}"))
+            .collect();
+        let slab: Vec<String> = slab
+            .iter()
+            .map(|n| match n {
+                Ok((v, h)) => format!("U{v}:{h}"),
+                Err(Some(next)) => format!("F{next}"),
+                Err(None) => "F-".to_string(),
+            })
+            .collect();
+        let free = free.map_or("-".to_string(), |f| f.to_string());
+        format!(
+            "heap=[{}] slab=[{}] free={} epoch={}",
+            heap.join(","),
+            slab.join(","),
+            free,
+            epoch
+        )
+    }
 }
 
 use crate::time::{MonotonicTime, TearableAtomicTime};
